@@ -3,7 +3,7 @@ import math
 from .terms import Lin, L, ZERO, eval_lin, eval_atom, base_atoms
 import os as _os
 import re as _re
-STRICT_WITNESS = bool(_os.environ.get('STV_STRICT_WITNESS'))
+STRICT_WITNESS = not _os.environ.get('STV_LOOSE_WITNESS')
 _WIDE = _re.compile(r'\b(?:w|wo|ld|pun|ret|uninit|sw|inttoptr|gep|intr|ev|end|cpy|fill|n|len|trunc|shl|lshr|mul|xor|ov|sel|v)#\d+')
 
 
@@ -399,7 +399,15 @@ class State(object):
         return True
 
     def assume_eq0(self, d):
-        return self.assume_ge0(d) and self.assume_ge0(-d)
+        if d in self.nefacts or (-d) in self.nefacts:
+            return False
+        if not (self.assume_ge0(d) and self.assume_ge0(-d)):
+            return False
+        # a recorded disequality that the equality now contradicts makes the state infeasible
+        for f in self.nefacts:
+            if self.is_eq0(f) is True:
+                return False
+        return True
 
     def assume_ne0(self, d):
         if not d.t:
@@ -481,6 +489,10 @@ class State(object):
         rel_ne = [f for f in self.nefacts if base_atoms(f) & atoms]
         for f in rel_ne:
             atoms |= base_atoms(f)
+        if STRICT_WITNESS and not getattr(self, 'allow_abstract_witness', False) and any(_WIDE.search(repr(a)) for a in atoms):
+            # a symbol that stands for lost precision (a widened loop value, a havoc'd read) takes part, directly or through a fact that
+            # ties it to the queried symbols: an assignment to it is a model of the abstraction, not of an execution - no witness
+            return None
         atoms = sorted(atoms, key=repr)
         if len(atoms) > 20:
             return None
